@@ -346,3 +346,7 @@ impl defmt::Format for PlainHdr {
         }
     }
 }
+
+#[cfg(any(kani, verif_replay))]
+#[path = "/verif/kani/plain_hdr.rs"]
+pub(crate) mod verif_kani_plain_hdr;
